@@ -13,6 +13,8 @@ import sys
 import time
 import traceback
 
+from .engine import REPO
+
 VERIF = os.path.dirname(os.path.dirname(os.path.abspath(__file__)))
 REPLAYS = os.path.join(VERIF, "replays")
 # VERIF_ONLY=<regex>: development aid, explores only the matching skeletons and keeps the partial evidence out of /verif
@@ -220,7 +222,7 @@ def _profile_functions(fn):
     def prof(frame, event, arg):
         if event == "call":
             co = frame.f_code
-            if co.co_filename.startswith("/repo/hta/"):
+            if co.co_filename.startswith(REPO + "/hta/"):
                 seen.add((co.co_filename, co.co_qualname))
     sys.setprofile(prof)
     try:
@@ -326,7 +328,7 @@ def replay_native(hname, sk, model, outdir, timeout=600):
         json.dump({"harness": hname, "skeleton": sk, "model": model}, fh, indent=1, default=repr)
     cmd = [sys.executable, "-m", "symx.runner", "--native", outdir]
     env = dict(os.environ)
-    env["PYTHONPATH"] = VERIF + os.pathsep + "/repo"
+    env["PYTHONPATH"] = VERIF + os.pathsep + REPO
     try:
         r = subprocess.run(cmd, cwd=VERIF, env=env, capture_output=True, text=True, timeout=timeout)
     except subprocess.TimeoutExpired:
@@ -339,14 +341,14 @@ def replay_native(hname, sk, model, outdir, timeout=600):
 
 def _native_main(outdir):
     case = json.load(open(os.path.join(outdir, "case.json")))
-    sys.path.insert(0, "/repo")
+    sys.path.insert(0, REPO)
     h = importlib.import_module(f"harness.{case['harness']}")
     ctx = NativeCtx(case["skeleton"], case["model"], os.path.join(outdir, "traces"))
     res = {"status": "ok", "failures": [], "assume_failed": False}
     try:
         h.run(ctx)
     except Exception as e:
-        if not any(fs.filename.startswith("/repo/") for fs in traceback.extract_tb(e.__traceback__)):
+        if not any(fs.filename.startswith(REPO + "/") for fs in traceback.extract_tb(e.__traceback__)):
             res["status"] = "harness-error"
             res["error"] = traceback.format_exc()
         res["failures"].append({"label": "raised:" + type(e).__name__, "detail": f"{type(e).__name__}: {e}",
